@@ -216,6 +216,9 @@ class Engine:
 			ctx.fail('property', f'{self.net.name}.{type_name}: a decoded value does not re-encode ({type(ex).__name__}: {ex})', info, signature=ded_signature(self.net.name, type_name, 're-encode'))
 			return
 		status, decoded2, obj2 = self.impl_decode(type_name, again)
+		if 'timeout' == status:
+			ctx.count('ded-timeouts')
+			return
 		if 'ok' != status or decoded2 != decoded:
 			ctx.fail('property', f'{self.net.name}.{type_name}: decode-encode-decode is not stable (second decode {status})', dict(info, reencoded=again.hex().upper()), signature=ded_signature(self.net.name, type_name, 'second-decode'))
 			return
